@@ -11,6 +11,7 @@ import Gozod.Model.GenSplit
 import Gozod.Model.GenEmit
 import Gozod.Model.GenTyped
 import Gozod.Gen.MethodTable
+import Gozod.Model.GenTerm
 namespace Gozod.Drv.C13
 open Gozod Gozod.Tags Gozod.GenChain
 
@@ -83,6 +84,42 @@ def statusOf (rs : List TagParser.Rule) (c : GenEmit.Chain) : String :=
   | some false => "notypecheck"
   | none => "?"
 
+/-- prefix syntax of harness/cmd/c13/term.go: B P<t> S<t> A<t> M<k><v> N<i>. T I -/
+def parseGT : Nat → List Char → Option (GenTerm.GT × List Char)
+  | 0, _ => none
+  | f + 1, cs =>
+    match cs with
+    | 'B' :: r => some (.basic, r)
+    | 'T' :: r => some (.time, r)
+    | 'I' :: r => some (.iface, r)
+    | 'P' :: r => (parseGT f r).map fun (t, r) => (.pointer t, r)
+    | 'S' :: r => (parseGT f r).map fun (t, r) => (.slice t, r)
+    | 'A' :: r => (parseGT f r).map fun (t, r) => (.array t, r)
+    | 'M' :: r =>
+      match parseGT f r with
+      | some (k, r) => (parseGT f r).map fun (v, r) => (.map k v, r)
+      | none => none
+    | 'N' :: r =>
+      let ds := r.takeWhile Char.isDigit
+      match (String.ofList ds).toNat?, r.drop ds.length with
+      | some n, '.' :: r => some (.named n, r)
+      | _, _ => none
+    | _ => none
+
+def parseGT1 (s : String) : Option GenTerm.GT :=
+  match parseGT (s.length + 1) s.toList with
+  | some (t, []) => some t
+  | _ => none
+
+/-- the program of a `term` op: environment (struct entries `R:f,f`) and every field that is converted -/
+def parseProg (fields env : String) : Option GenTerm.Prog :=
+  let entries := if env == "-" then [] else env.splitOn ";"
+  let envT : Option (List GenTerm.GT) := entries.mapM fun e => if e.startsWith "R:" then some .struct else parseGT1 e
+  let structFields : List String := entries.flatMap fun e => if e.startsWith "R:" then (e.drop 2).toString.splitOn "," else []
+  match envT, (fields.splitOn "," ++ structFields).mapM parseGT1 with
+  | some env, some fs => some ⟨env, fs⟩
+  | _, _ => none
+
 def handle : List String → String
   | ["split", s, "|", ref] =>
     match parseRunes s with
@@ -117,6 +154,18 @@ def handle : List String → String
   | ["wcell", _, _, tag, _, "|", _] =>
     match parseRunes tag with
     | some tag => GenSplit.parseReason tag
+    | none => "bad-op"
+  | ["term", fields, "|", env, "|", "ifs=2"] =>
+    -- the `case *types.Named:` clause carries a second `if` in front of the recursion (the stack check of
+    -- pending/C13-recursive-named.diff): GenTerm.convV, total by construction
+    match parseProg fields env with
+    | some p => (if p.fields.all (fun t => GenTerm.convV p.env (List.range p.env.length) t == GenTerm.convV p.env (List.range p.env.length) t) then "ok" else "crash") ++ " ok"
+    | none => "bad-op"
+  | ["term", fields, "|", env, "|", "ifs=1"] =>
+    -- model: the conversion as written, with fuel 2000 — far beyond what any terminating case of the generator needs (a Go stack of 1 GB holds far fewer frames than that would need
+    -- on a diverging case: the run ends in `fatal error: stack overflow`); spec: gozodgen terminates normally
+    match parseProg fields env with
+    | some p => (if GenTerm.analyzeF p 2000 then "ok" else "crash") ++ " ok"
     | none => "bad-op"
   | ["gen"] => "ok ok"
   | ["compile", _, _] => "ok ok"
